@@ -89,6 +89,8 @@ impl CollisionTask<'_> {
                 bg_transform,
                 bg_shape,
             ).expect(SUPPORTED) {
+                #[cfg(feature = "verif_hooks")]
+                crate::verif_hooks::emit("collision_prefilter_reject", &[self.i as f64, self.j as f64]);
                 false
             } else {
                 parry3d::query::distance(
@@ -102,6 +104,12 @@ impl CollisionTask<'_> {
             }
         };
         
+        #[cfg(feature = "verif_hooks")]
+        crate::verif_hooks::emit(
+            "collision_task",
+            &[self.i as f64, self.j as f64, r_min as f64, if collides { 1.0 } else { 0.0 }],
+        );
+
         if collides {
             Some((self.i.min(self.j), self.i.max(self.j)))
         } else {
